@@ -548,12 +548,18 @@ fn ctl_cfgs(thorough: bool) -> Vec<Cfg> {
 }
 
 fn judge_system(ctx: &Ctx, s: &System, sc: &starky::config::StarkConfig, tables: &[Rows], what: &str) -> Result<String, (String, String)> {
+    judge_system_adv(ctx, s, sc, tables, what, None)
+}
+
+/// `balance`: adversarial prover that shifts one running-sum column so that the cross-table first-row
+/// check balances (see starkm::ctl_prove_adv); the expected verdict is still the multiset oracle's.
+fn judge_system_adv(ctx: &Ctx, s: &System, sc: &starky::config::StarkConfig, tables: &[Rows], what: &str, balance: Option<u8>) -> Result<String, (String, String)> {
     let cf = check_ctls(tables, &s.ctls);
     let terms_ok = s.defs.iter().zip(tables).all(|(d, t)| check_trace(d, t, &[]).is_empty());
     let expect_ok = cf.is_empty() && terms_ok;
     let kind = if !cf.is_empty() { "ctl" } else { "term" };
     ctx.transition(1);
-    let proofs = match ctl_prove(&s.defs, tables, &s.ctls, sc, false) {
+    let proofs = match ctl_prove_adv(&s.defs, tables, &s.ctls, sc, false, balance) {
         Ok(p) => p,
         Err(e) => {
             if expect_ok {
@@ -574,7 +580,12 @@ fn judge_system(ctx: &Ctx, s: &System, sc: &starky::config::StarkConfig, tables:
         (true, v) => Err((format!("ctl-verify/valid-system-rejected:{}:{what}", s.name), format!("multiset oracle satisfied but the system was not accepted: {v:?}"))),
         (false, Verdict::Accepted) => {
             let why = cf.first().map(|f| format!("CTL {} tuple {:?}: looking weight {} vs looked weight {}", f.ctl, f.tuple, f.looking, f.looked)).unwrap_or_else(|| "a table's own constraint term".into());
-            Err((format!("ctl-verify/bad-system-accepted:{kind}"), format!("oracle violated ({why}) but the system was ACCEPTED")))
+            let adv = match balance {
+                None => "",
+                Some(0) => ":balanced-looking-Z",
+                Some(_) => ":balanced-looked-Z",
+            };
+            Err((format!("ctl-verify/bad-system-accepted:{kind}{adv}"), format!("oracle violated ({why}) but the system was ACCEPTED")))
         }
         (false, v) => {
             ctx.count(&format!("ctl_rejected_bad:{kind}"), 1);
@@ -614,6 +625,13 @@ fn cross_table(ctx: &Ctx, systems: &[System], thorough: bool) {
         if obs.starts_with("VIOLATION") || (*ch != 0 && !thorough) {
             return; // an honest system that fails is reported once; its corruptions would only repeat it
         }
+        for bal in if s.ctls.iter().all(|c| c.extra.is_empty()) { vec![0u8, 1] } else { vec![] } {
+            // control: on a valid system the balancing shift is zero
+            let case = format!("{prefix}honest balance{bal}");
+            if ctx.want(&case) {
+                judged_case(ctx, &case, || judge_system_adv(ctx, s, &sc, &tables, "honest-balanced", Some(bal)));
+            }
+        }
         for (ti, t) in tables.iter().enumerate() {
             let n = t.len();
             for r in 0..n {
@@ -632,6 +650,17 @@ fn cross_table(ctx: &Ctx, systems: &[System], thorough: bool) {
                         let ok = system_ok(s, &tabs);
                         let what = format!("{}cell:{}", if ok { "unpinned-" } else { "" }, row_class(r, n));
                         let obs = judged_case(ctx, &case, || judge_system(ctx, s, &sc, &tabs, &what));
+                        // the same violated system under the two balancing provers (systems without extra
+                        // looking values: the balancing shift does not account for them)
+                        if !ok && tag == "+1" && (thorough || *k == 3) && s.ctls.iter().all(|c| c.extra.is_empty()) {
+                            for bal in [0u8, 1] {
+                                let case = format!("{prefix}cell t{ti} r{r} c{c} {tag} balance{bal}");
+                                if ctx.want(&case) {
+                                    let what = format!("cell:{}:balance{bal}", row_class(r, n));
+                                    judged_case(ctx, &case, || judge_system_adv(ctx, s, &sc, &tabs, &what, Some(bal)));
+                                }
+                            }
+                        }
                         if sampled && r == 1 && tag == "+1" {
                             ctx.sample(json!({"case": case, "old": v, "new": nv, "oracle_satisfied": ok, "observed": obs}));
                         }
